@@ -810,10 +810,13 @@ impl Paragraph {
 
     /// Remove the given field from the paragraph.
     pub fn remove(&mut self, key: &str) {
-        for mut entry in self.entries() {
-            if entry.key().as_deref() == Some(key) {
-                entry.detach();
-            }
+        // collect first: detaching a node ends the iteration over its siblings
+        let entries = self
+            .entries()
+            .filter(|e| e.key().as_deref() == Some(key))
+            .collect::<Vec<_>>();
+        for mut entry in entries {
+            entry.detach();
         }
     }
 
